@@ -324,7 +324,11 @@ func runC17s(rc *RunCtx) {
 	m := &RecMetrics{Inner: prom}
 	keys := genKeys(G, 1+G.Draw(3), "")
 	natT := []time.Duration{2 * time.Second, 20 * time.Second}[G.Draw(2)]
-	tsrv := startTCPServer(rc, w, tcpServerOpts{Keys: keys, Timeout: time.Second, Metrics: m})
+	replayable := G.Draw(2) == 0 // the replay history is on: a repeated handshake is refused
+	tsrv := startTCPServer(rc, w, tcpServerOpts{Keys: keys, Timeout: time.Second, Metrics: m, Replay: map[bool]int{false: 0, true: 100}[replayable]})
+	var wires [][]byte           // handshakes of earlier valid connections (for replays)
+	mayAuth := map[int]bool{}    // client ports of connections that present a fresh valid handshake
+	wirePorts := map[int][]int{} // handshake -> client ports that presented it
 	usrv := startUDPServer(rc, w, udpServerOpts{Keys: keys, Timeout: natT, Metrics: m})
 	tgtIP := net.IPv4(93, 184, 216, 34).To4()
 	startTarget(w, tgtIP, 7000, func(tc *targetConn) {
@@ -363,11 +367,24 @@ func runC17s(rc *RunCtx) {
 			if err != nil {
 				return
 			}
-			if probe {
+			switch {
+			case probe && len(wires) > 0 && replayable:
+				// a replayed handshake: refused, held open like a probe, and no tunnel
+				wi := len(wires) - 1
+				cc.Write(wires[wi])
+				// whichever copy the server sees first is the one it may serve
+				mayAuth[42000+t] = true
+				wirePorts[wi] = append(wirePorts[wi], 42000+t)
+				simrt.Probe("replayed_handshake_held_open")
+			case probe:
 				cc.Write(payload(G, 70))
-			} else {
+			default:
 				enc := newEncoder(key)
-				cc.Write(enc.Chunk(socksAddr(fmt.Sprintf("%s:7000", tgtIP))))
+				wire := enc.Chunk(socksAddr(fmt.Sprintf("%s:7000", tgtIP)))
+				mayAuth[42000+t] = true
+				cc.Write(wire)
+				wires = append(wires, wire)
+				wirePorts[len(wires)-1] = append(wirePorts[len(wires)-1], 42000+t)
 			}
 			simrt.Sleep(d1)
 			cc.CloseWrite()
@@ -407,6 +424,27 @@ func runC17s(rc *RunCtx) {
 	if failed {
 		return
 	}
+	// one handshake, at most one tunnel (replay history on)
+	authed := map[int]bool{}
+	for _, r := range m.TCP {
+		if r.Server == nil || r.first("auth") == nil {
+			continue
+		}
+		if ta, ok := r.Server.RemoteAddr().(*net.TCPAddr); ok {
+			authed[ta.Port] = true
+		}
+	}
+	for wi, ports := range wirePorts {
+		n := 0
+		for _, p := range ports {
+			if authed[p] {
+				n++
+			}
+		}
+		if replayable && n > 1 {
+			rc.Failf("tunnel-for-unauthenticated-connection", "handshake %d was presented by %d connections and %d of them were reported authenticated (replay history on): a refused replay contributes tunnel time", wi, len(ports), n)
+		}
+	}
 	// intervals as the service reported them
 	var ivs []*c17iv
 	for _, r := range m.TCP {
@@ -415,6 +453,12 @@ func runC17s(rc *RunCtx) {
 			continue
 		}
 		if r.Server == nil {
+			continue
+		}
+		if ta, ok := r.Server.RemoteAddr().(*net.TCPAddr); ok && !mayAuth[ta.Port] {
+			// "unauthenticated connections contribute nothing": probes and replayed
+			// handshakes never start a tunnel
+			rc.Failf("tunnel-for-unauthenticated-connection", "a connection that presented no fresh valid handshake (client %v: a probe or a replay) was reported authenticated as %q: it contributes tunnel time", ta, a.Key)
 			continue
 		}
 		host, _, _ := net.SplitHostPort(r.Server.RemoteAddr().String())
